@@ -163,6 +163,13 @@ pub fn gen_case(rng: &mut Rng, first_frame_state_only: bool) -> Case {
                 Op::CtrlGone { ctrl, closed }
             }
             _ if rng.chance(1, 3) => Op::SessionEnd,
+            _ if rng.chance(1, 2) => {
+                // an attempt that is aborted, then (mostly) a plain delivery in several frames on that link
+                let link = rng.below(data_links as u64) as usize;
+                let txn = if rng.chance(1, 8) { TxnRef::None } else { pick_txn(rng, &usable) };
+                ops.push(Op::Aborted { link, txn, more: rng.chance(1, 2) });
+                Op::Post { link, txn: TxnRef::None, frames: *rng.pick(&[1usize, 2, 3]), settled: rng.chance(1, 4), state_on_all: true, abort_first: false }
+            }
             _ => Op::Post { link: rng.below(data_links as u64) as usize, txn: TxnRef::None, frames: 1, settled: false, state_on_all: true, abort_first: false },
         };
         ops.push(op);
@@ -230,10 +237,10 @@ impl Script {
 
     /// a delivery that is begun (one frame with `more`, carrying `state`) and aborted by its second frame
     async fn aborted_attempt(&mut self, handle: u32, state: Option<DeliveryState>) -> Result<(), PeerError> {
-        self.aborted_attempt_with(handle, state, false).await
+        self.aborted_attempt_with(handle, state, false).await.map(|_| ())
     }
 
-    async fn aborted_attempt_with(&mut self, handle: u32, state: Option<DeliveryState>, more: bool) -> Result<(), PeerError> {
+    async fn aborted_attempt_with(&mut self, handle: u32, state: Option<DeliveryState>, more: bool) -> Result<u32, PeerError> {
         let id = self.next_out;
         self.tag += 1;
         let mut t = transfer(handle, Some(id), Some(self.tag.to_be_bytes().to_vec()), Some(false), true);
@@ -246,7 +253,7 @@ impl Script {
         self.note(&a, self.cur_op);
         self.peer.send(0, Performative::Transfer(a), &[]).await?;
         self.next_out = self.next_out.wrapping_add(1);
-        Ok(())
+        Ok(id)
     }
 
     async fn transfer_msg(&mut self, handle: u32, body: Vec<u8>, frames: usize, settled: bool, state: Option<DeliveryState>, state_on_all: bool) -> Result<u32, PeerError> {
@@ -655,8 +662,20 @@ pub fn run_case(case: &Case) -> Result<Observed, String> {
                         TxnRef::Unknown => Some(unknown_id.clone()),
                     };
                     let state = id_bytes.map(|b| DeliveryState::TransactionalState(TransactionalState { txn_id: TransactionId::from(b), outcome: None }));
-                    sc.aborted_attempt_with(h, state, *more).await.map_err(e)?;
-                    "?".to_string()
+                    let is_txn = state.is_some();
+                    let id = sc.aborted_attempt_with(h, state, *more).await.map_err(e)?;
+                    if is_txn {
+                        // the first frame of the attempt is answered like any post (or the session ends over an unknown id)
+                        match sc.wait_disposition(id).await {
+                            Some(_) => "?".to_string(),
+                            None => match &sc.session_gone {
+                                Some(c) => format!("SE:{}", c),
+                                None => "?no-answer".into(),
+                            },
+                        }
+                    } else {
+                        "?".to_string()
+                    }
                 }
                 Op::SessionEnd => {
                     sc.peer.send(0, Performative::End(End { error: None }), &[]).await.map_err(e)?;
@@ -785,8 +804,15 @@ pub fn oracle(case: &Case, issued: usize) -> (Vec<String>, Vec<Vec<(usize, u32)>
                 dead = true;
                 "-".into()
             }
-            // only used with a live transaction: nothing to see
-            Op::Aborted { .. } => "?".into(),
+            // nothing to see of it under a live transaction (or under none); an unknown or finished id ends the session
+            Op::Aborted { txn, .. } => match txn {
+                TxnRef::None => "?".into(),
+                TxnRef::Slot(k) if *k < txns.len() && txns[*k].0 == T::Live => "?".into(),
+                _ => {
+                    dead = true;
+                    "SE".into()
+                }
+            },
         };
         outs.push(out);
         snaps.push(delivered.clone());
@@ -802,6 +828,7 @@ pub fn model_line(case: &Case, obs: &Observed) -> (String, String) {
     let mut words = vec![];
     let mut label = 0u32;
     let mut ctrl_alive = vec![true; case.ctrl_links];
+    let mut words_ops = 0usize;
     for op in case.ops.iter().take(obs.issued) {
         match op {
             Op::Declare { ctrl } => {
@@ -838,8 +865,14 @@ pub fn model_line(case: &Case, obs: &Observed) -> (String, String) {
                 }
             }
             Op::SessionEnd => words.push("e".into()),
-            Op::Aborted { .. } => {}
+            Op::Aborted { link, .. } => {
+                // the model of whole posts knows nothing of attempts; one that named a dead id is a post to it
+                if obs.outs.get(words_ops).map(|o| o.starts_with("SE")).unwrap_or(false) {
+                    words.push(format!("p:999:{}:0", link));
+                }
+            }
         }
+        words_ops += 1;
     }
     let outs: Vec<String> = obs.outs.iter().filter(|o| *o != "?").map(|o| if o.starts_with("SE") { "SE".to_string() } else { o.clone() }).collect();
     let imp = format!("{} | {}", if outs.is_empty() { "-".into() } else { outs.join(" ") }, if obs.delivered.is_empty() { "-".into() } else { obs.delivered.iter().map(|(l, x)| format!("{}.{}", l, x)).collect::<Vec<_>>().join(" ") });
@@ -1561,12 +1594,14 @@ pub fn main(opts: &Opts) {
                 if !obs.frame_log.is_empty() && !obs.outs.iter().any(|o| o.starts_with("SE") || o.starts_with('?') && o.len() > 1) {
                     let mut want = vec![];
                     for (op, _) in &obs.frame_log {
-                        let is_attempt = matches!(case.ops.get(*op), Some(Op::Aborted { .. }));
+                        let is_attempt = matches!(case.ops.get(*op), Some(Op::Aborted { txn, .. }) if *txn != TxnRef::None);
+                        let plain_attempt = matches!(case.ops.get(*op), Some(Op::Aborted { txn: TxnRef::None, .. }));
                         want.push(match obs.outs.get(*op).map(|x| x.as_str()) {
                             Some("B") => 'W',
                             Some("V") => 'D',
                             // an aborted attempt under a live transaction is withheld; declare / discharge messages are plain
                             _ if is_attempt => 'W',
+                            _ if plain_attempt => 'D',
                             Some(o) if o.starts_with('D') || o == "A" || o.starts_with('R') => 'D',
                             _ => '?',
                         });
